@@ -782,11 +782,10 @@ impl OPWKinematics {
 // Adjusted helper function to check for n*pi where n is any integer
 fn is_close_to_multiple_of_pi(joint_value: f64, threshold: f64) -> bool {
 
-    // Normalize angle within [0, 2*PI)
-    let normalized_angle = joint_value.rem_euclid(2.0 * PI);
-    // Check if the normalized angle is close to 0 or PI
+    // Normalize angle within [0, PI): distance to the nearest multiple of PI from either side
+    let normalized_angle = joint_value.rem_euclid(PI);
     normalized_angle < threshold ||
-        (PI - normalized_angle).abs() < threshold
+        (PI - normalized_angle) < threshold
 }
 
 fn are_angles_close(angle1: f64, angle2: f64) -> bool {
